@@ -60,8 +60,19 @@ def _snapshot(d, lf):
         else:
             rot.append((-1, fn.encode()))        # a stray file: shows up in the observation
     rot.sort(key=lambda e: -e[0])
+    return rot, cur, lf.size
+
+
+def _full(snap):
+    rot, cur, size = snap
     return ("[" + ",".join(f"{i}:{c.hex()}" for i, c in rot) + "|" + ("ABSENT" if cur is None else cur.hex())
-            + "|" + str(lf.size) + "]")
+            + "|" + str(size) + "]")
+
+
+def _short(snap):
+    rot, cur, size = snap
+    return ("[" + ",".join(f"{i}.{len(c)}" for i, c in rot) + "|" + ("ABSENT" if cur is None else str(len(cur)))
+            + "|" + str(size) + "]")
 
 
 def impl(case) -> str:
@@ -115,7 +126,8 @@ def impl(case) -> str:
                     lf = make()
             else:
                 raise ValueError(op)
-            out.append(("!" if crashed or op[0] == "crot" else "") + _snapshot(d, lf))
+            out.append(("!" if crashed or op[0] == "crot" else "", _snapshot(d, lf)))
+        initial = _snapshot(d, lf) if not case["ops"] else None
     finally:
         logfile.os = real_os
         try:
@@ -124,7 +136,15 @@ def impl(case) -> str:
         except Exception:
             pass
         shutil.rmtree(d, ignore_errors=True)
-    return " ".join(out)
+    # compared with the model: lengths after every operation + full final contents;
+    # for the oracle (after " || "): full contents after every operation
+    final = out[-1][1] if out else initial
+    return (" ".join(m + _short(s) for m, s in out) + " # " + _full(final)
+            + " || " + " ".join(m + _full(s) for m, s in out))
+
+
+def model_equal(case, a, b):
+    return a.split(" || ")[0] == b
 
 
 # --------------------------------------------------------------------------------------------------
@@ -152,7 +172,8 @@ def _data(op):
 
 
 def oracle(case, obs):
-    snaps = obs.split(" ") if obs else []
+    full = obs.split(" || ", 1)[1] if " || " in obs else ""
+    snaps = full.split(" ") if full else []
     if len(snaps) != len(case["ops"]):
         return Failure(case, "malformed observation", "trace")
     rl, mx = case["rl"], case["max"]
@@ -182,11 +203,18 @@ def oracle(case, obs):
             return Failure(case, where + "data lost without a retention count: "
                            f"disk={on_disk.hex()} written={written.hex()}",
                            "crash-loss-no-retention" if crashes else "loss-no-retention")
-        # a completed rotation happened iff path.1 now holds what was the current file and the current file restarted
-        rotated_now = (not crashed or op[0] == "crot") and bool(rot) and rot[-1][0] == 1 and \
-            (len(rot), [c for _, c in rot]) != (len(prev_rot), [c for _, c in prev_rot]) and rot[-1][1] == prev_cur \
-            and op[0] != "reopen"
+        # did a rotation complete in this operation?
+        if op[0] == "rot":
+            rotated_now = True
+        elif op[0] == "crot":
+            rotated_now = op[1] > len(prev_rot)          # all remove/rename calls were made
+        elif op[0] in ("w", "t") or (op[0] == "cw" and not crashed):
+            rotated_now = rot != prev_rot                # a write changes the numbered files only by rotating
+        else:
+            rotated_now = False
         if rotated_now:
+            if op[0] in ("w", "t", "cw") and not rl:
+                return Failure(case, where + "automatic rotation although rotateLength disables it", "rotated-while-disabled")
             if op[0] in ("w", "t", "cw") and rl and len(prev_cur) < rl:
                 return Failure(case, where + f"a file of {len(prev_cur)} bytes was rotated automatically, "
                                f"rotateLength={rl}", "rotated-too-small")
@@ -199,8 +227,6 @@ def oracle(case, obs):
                 if crashes == 0 and _contig(case) and len(rot) != want:
                     return Failure(case, where + f"{len(rot)} rotated files kept, expected {want} "
                                    f"(maxRotatedFiles={mx})", "retention-dropped-too-many")
-        elif op[0] in ("w", "t") and rl and _size_before(case, k, snaps) is not None:
-            pass
         prev_rot, prev_cur = rot, cur
     return None
 
@@ -208,10 +234,6 @@ def oracle(case, obs):
 def _contig(case):
     idx = [i for i, _ in case["rot0"]]
     return idx == list(range(len(idx), 0, -1))
-
-
-def _size_before(case, k, snaps):
-    return None
 
 
 # --------------------------------------------------------------------------------------------------
@@ -333,6 +355,7 @@ SPEC = Spec(
     coq_header="From C53 Require Import Model Run.",
     coq_fn="run_show",
     to_coq=to_coq,
+    model_equal=model_equal,
     nontrivial=lambda c, o: o.count(":") >= 2,
     histogram=lambda c, o: f"rl={'off' if not c['rl'] else 'on'} max={c['max']} crash={'y' if '!' in o else 'n'}",
     rule="crash after every k of the remove/rename calls of rotate() (explicit and inside write) for 0-4 rotated "
